@@ -81,11 +81,18 @@ def gen(rng, idx, tier):
     if stratum == "default" and rng.random() < 0.15:
         # lib filters that must not change what is drawn (glyphsLib writes the first one):
         # decomposing / flattening early keeps every contour where full decomposition puts it
+        gnames = [g["name"] for g in glyphs if g["name"] != ".notdef"]
         ufo_lib["com.github.googlei18n.ufo2ft.filters"] = [rng.choice([
             {"name": "decomposeTransformedComponents", "pre": True},
             {"name": "decomposeTransformedComponents", "pre": True},
             {"name": "flattenComponents", "pre": True},
-            {"name": "decomposeTransformedComponents"}])]
+            {"name": "decomposeTransformedComponents"},
+            # the default decomposition, asked for a SUBSET of the glyphs only: the others
+            # are decomposed (with mirrored parts reversed) all the same
+            {"name": "decomposeComponents", "pre": True,
+             "include": rng.sample(gnames, rng.randint(1, max(1, len(gnames) // 2)))},
+            {"name": "decomposeComponents", "pre": True,
+             "exclude": rng.sample(gnames, rng.randint(1, max(1, len(gnames) // 2)))}])]
     return {
         "stratum": stratum,
         "skip": skip,
